@@ -46,7 +46,8 @@ from ..traces import validate
 KF_AES = "KF-C15-01"
 PS_CONST = ("CONSTANTS Threads = {%s}\n Calls = %d\n UseLock = %s\n RestoreOnRaise = %s\n"
             " BodyMayRaise = %s\n TrackSched = %s\n")
-FONT_UNIVERSE = {"fonts": ["f", "g"], "gids": [[1, 2], [3, 4], [1, 2, 3]]}
+# glyph-id sets of one font in subset / superset / overlapping / disjoint relation
+FONT_UNIVERSE = {"fonts": ["f", "g"], "gids": [[1, 2], [1, 2, 3], [2, 3], [3, 4]]}
 MAX_REPORT = 6
 
 
@@ -107,6 +108,8 @@ def run(ctx):
                                   scratch=sc, workers=2),
         "gl_font": lambda: run_tlc("Globals", _gl_cfg(["FontCacheKeyedByFontOnly"], 3, ("HistoryIndependent",)),
                                    scratch=sc, expect_fail=True, workers=1),
+        "gl_super": lambda: run_tlc("Globals", _gl_cfg(["FontCacheSupersetReuse"], 3, ("HistoryIndependent",)),
+                                    scratch=sc, expect_fail=True, workers=1),
         "gl_aes": lambda: run_tlc("Globals", _gl_cfg(["PermanentAesPatch", "AesPatchOnlyOnOpenFailure"], 3,
                                                      ("HistoryIndependent",)),
                                   scratch=sc, expect_fail=True, workers=1),
@@ -132,6 +135,7 @@ def run(ctx):
     for n, inv, note in (("ps_nolock", "Residue", "UseLock=FALSE (pinned tree's design): Residue must fail"),
                          ("ps_nofinally", "Residue", "RestoreOnRaise=FALSE: Residue must fail"),
                          ("gl_font", "HistoryIndependent", "FontCacheKeyedByFontOnly: HistoryIndependent must fail"),
+                         ("gl_super", "HistoryIndependent", "FontCacheSupersetReuse: HistoryIndependent must fail"),
                          ("gl_aes", "HistoryIndependent", "PermanentAesPatch + AesPatchOnlyOnOpenFailure (pinned "
                                                           "tree): HistoryIndependent must fail"),
                          ("gl_aes_res", "ResidueFree", "PermanentAesPatch: ResidueFree must fail")):
@@ -415,7 +419,7 @@ def run(ctx):
             else:
                 out_ = "same" if same else "differs"
             evs.append({"a": "Extract", "d": d["cls"], "f": d["f"], "g": d["g"], "out": out_, "gl": x["gl"],
-                        "same": same})
+                        "cl": x["cl"], "same": same})
             detail.append(f"{did}: {x['sig'][:70]} (isolated: {baseline[did]['sig'][:70]})")
             kept.append(did)
         r_ = o["residue"]
@@ -425,7 +429,7 @@ def run(ctx):
         h_traces.append({"id": j["id"], "hdr": {"docs": kept}, "ev": evs, "detail": detail})
     slim = [{k: t[k] for k in ("id", "hdr", "ev")} for t in h_traces]
     g_cfg = "SPECIFICATION TraceSpec\nCONSTRAINT TraceAccept\n" + _gl_cfg([], 1).split("\n", 1)[1]
-    br = validate("Globals", g_cfg, slim, scratch=sc, parallel=8, min_chunk=10, diagnose=MAX_REPORT)
+    br = validate("Globals", g_cfg, slim, scratch=sc, parallel=8, min_chunk=10, diagnose=0)
     ev.tlc_counts("Globals trace validation (reference model, Deviations={})", br.distinct, br.states, br.wall_s)
     rejected = [(t, tv) for t, tv in zip(h_traces, br.verdicts) if not tv.accepted]
     for t, tv in zip(h_traces, br.verdicts):
@@ -438,20 +442,29 @@ def run(ctx):
     if in_dom:
         a_cfg = "SPECIFICATION TraceSpec\nCONSTRAINT TraceAccept\n" + _gl_cfg(["PermanentAesPatch"], 1).split("\n", 1)[1]
         br2 = validate("Globals", a_cfg, [{k: t[k] for k in ("id", "hdr", "ev")} for t, _ in in_dom], scratch=sc,
-                       parallel=8, min_chunk=10, diagnose=MAX_REPORT)
+                       parallel=8, min_chunk=10, diagnose=0)
         ev.tlc_counts("Globals trace validation (as-built: PermanentAesPatch)", br2.distinct, br2.states, br2.wall_s)
         asb = {t["id"]: tv2 for (t, _), tv2 in zip(in_dom, br2.verdicts)}
+    # locate the first rejected event only for the few histories that will be reported as violations
+    viol = [t for t, _ in rejected if not (asb.get(t["id"]) is not None and asb[t["id"]].accepted)][:MAX_REPORT]
+    located = {}
+    for grp, cfg_ in (([t for t in viol if t["id"] not in asb], g_cfg), ([t for t in viol if t["id"] in asb], None)):
+        if grp:
+            cfg_ = cfg_ or a_cfg
+            br3 = validate("Globals", cfg_, [{k: t[k] for k in ("id", "hdr", "ev")} for t in grp], scratch=sc,
+                           parallel=1, min_chunk=100, diagnose=MAX_REPORT)
+            located.update({t["id"]: tv3.reached for t, tv3 in zip(grp, br3.verdicts)})
     shown = 0
     for t, tv in rejected:
         a2 = asb.get(t["id"])
         if a2 is not None and a2.accepted:
-            r_ = tv.reached
+            r_ = -1
             v.known(KF_AES, f"history {t['hdr']['docs'][:4]}{'...' if len(t['hdr']['docs']) > 4 else ''} deviates "
                             f"from the reference model and TLC accepts it under PermanentAesPatch"
                             + (f" (first deviating event {r_ + 1}: {t['ev'][r_]})" if 0 <= r_ < len(t["ev"]) else ""),
                     case={"docs": t["hdr"]["docs"][:12]})
             continue
-        r_ = a2.reached if a2 is not None else tv.reached        # in the domain, but a different wrong observation
+        r_ = located.get(t["id"], -1)       # (in the domain of the finding: first event the as-built model rejects)
         shown += 1
         if shown > MAX_REPORT:
             continue
@@ -629,7 +642,7 @@ def _worker_hist(docs_json, inp, out, tmp):
     repo.activate()
     import sharepoint2text  # noqa
     import pypdf._crypt_providers._fallback  # noqa
-    from ..c15_docs import resolved_glyphs
+    from ..c15_docs import glyph_projection
     docs = json.loads(Path(docs_json).read_text())
     job = json.loads(Path(inp).read_text())
     res = _Residue(tmp)
@@ -637,10 +650,11 @@ def _worker_hist(docs_json, inp, out, tmp):
     for did in job["docs"]:
         d = docs[did]
         sig, first, exc = _signature(d["path"])
-        gl = []
+        gl, cl = [], []
         if d["cls"] == "font" and first is not None:
-            gl = resolved_glyphs(first.get_full_text(), d["g"])
-        obs.append({"did": did, "sig": sig, "exc": type(exc).__name__ if exc is not None else "", "gl": gl})
+            gl, cl = glyph_projection(first.get_full_text(), d["g"])
+        obs.append({"did": did, "sig": sig, "exc": type(exc).__name__ if exc is not None else "", "gl": gl,
+                    "cl": cl})
     Path(out).write_text(json.dumps({"obs": obs, "residue": res.read()}))
 
 
